@@ -14,6 +14,7 @@ from __future__ import annotations
 import json
 import multiprocessing as mp
 import os
+import zlib
 from concurrent.futures import ThreadPoolExecutor
 
 from gverif import tlc
@@ -26,17 +27,23 @@ GROUPS = {   # domains of spec/SrcLayout.tla (DomTab) per TLC run
     "quick": [("clean", ["core", "wide"], 4), ("hazard", ["breaks", "decos", "leak", "bom", "twin", "twinx"], 3)],
     "thorough": [("core", ["core"], 6), ("wide", ["wide", "mid"], 6), ("hazard", ["breaks", "decos", "leak", "bom", "twin", "twinx"], 4)],
 }
-# every defect domain must make TLC report the unconditioned clause violated (the model exhibits the defect)
-EXHIBIT = [("breaks", "TextExact"), ("decos", "SpanExact"), ("leak", "DocExact"), ("bom", "Loadable"), ("twinx", "FileExact"), ("twinx", "TextExact")]
+# every defect domain must make TLC report the unconditioned clauses violated (the model exhibits the defect)
+EXHIBIT_DOMAINS = ["breaks", "decos", "leak", "bom", "twinx"]
+EXHIBIT_INV = {"SpanExact", "DocExact", "TextExact", "FileExact", "Loadable"}
 # ... and every named cause must be seen in the model's own deviation table (implx) of some emitted layout
 EXPECT_DOMAINS = {"core", "wide", "breaks", "decos", "leak", "bom", "twin", "twinx"}
 
 
-def modes_for(idx: int, case: dict, tier: str) -> tuple:
+def case_hash(case: dict) -> int:
+    """Stable number of a layout (TLC's emission order depends on worker scheduling)."""
+    return zlib.crc32(json.dumps([case["dom"], case["head"], case["items"]], sort_keys=True).encode()) + SEED
+
+
+def modes_for(h: int, case: dict, tier: str) -> tuple:
     if case.get("twin"):
         return ("stubs",)
     m = ["load"]
-    k = idx % 4
+    k = (h // 4) % 4
     if tier == "thorough" or k == 0:
         m.append("json")
     if tier == "thorough" or k == 1:
@@ -56,11 +63,7 @@ def run_group(group, tier):
 
 
 def run_exhibits():
-    out = []
-    for d, inv in EXHIBIT:
-        res = tlc.run("SrcLayout", "SrcLayout_exhibit.cfg", workers=1, constants={"DOMAINS": Q([d]), "INV": inv}, timeout=600)
-        out.append((d, inv, res))
-    return out
+    return tlc.run("SrcLayout", "SrcLayout_exhibit.cfg", workers=1, constants={"DOMAINS": Q(EXHIBIT_DOMAINS)}, extra=["-continue"], timeout=900)
 
 
 def replay_file(run: Run, path: str):
@@ -77,7 +80,7 @@ def replay_file(run: Run, path: str):
     run.evaluated(res["objects"])
     for sig, what in res["viol"]:
         run.violation(sig, what, c)
-    r = tlc.run("SrcLayout", "SrcLayout_run.cfg", workers=1, constants={"DOMAINS": Q(["bom"]), "DEEP": "FALSE"})
+    r = tlc.run("SrcLayout", "SrcLayout_run.cfg", workers=1, constants={"DOMAINS": Q(["bom"]), "DEEP": "FALSE"})  # counters for the evidence file
     run.add_tlc(tlc.must(r))
     run.finish()
 
@@ -115,7 +118,8 @@ def main(tier: str, replay: str | None = None):
                 for case in res.cases:
                     meta[idx] = (case["dom"], case)
                     doms_seen.add(case["dom"])
-                    chunk.append((idx, case, idx % 4, modes_for(idx, case, tier)))
+                    h = case_hash(case)
+                    chunk.append((idx, case, h % 4, modes_for(h, case, tier)))
                     idx += 1
                     if len(chunk) == 40:
                         pending.append(pool.apply_async(x02_replay.check_chunk, (chunk,)))
@@ -123,10 +127,10 @@ def main(tier: str, replay: str | None = None):
                 if chunk:
                     pending.append(pool.apply_async(x02_replay.check_chunk, (chunk,)))
                 res.cases = []
-            for d, inv, res in fex.result():
-                if res.errors or inv not in res.violated:
-                    die(f"X02: defect domain {d} no longer violates {inv} on the model (errors={res.errors[:2]})")
-                run.add_tlc(res)
+            xres = fex.result()
+            if xres.errors or not xres.finished or not EXHIBIT_INV <= set(xres.violated) or "RefNested" in xres.violated:
+                die(f"X02: the defect domains no longer violate {sorted(EXHIBIT_INV - set(xres.violated))} on the model (errors={xres.errors[:2]})")
+            run.add_tlc(xres)
         if EXPECT_DOMAINS - doms_seen:
             die(f"X02: no layout emitted for domains {sorted(EXPECT_DOMAINS - doms_seen)}")
         seen_causes = set()
@@ -150,7 +154,7 @@ def main(tier: str, replay: str | None = None):
                     run.sample({"config": name, "head": case["head"], "items": case["items"], "ref": case["ref"]})
                 for sig, what in r["viol"]:
                     seen_causes.add(sig["cause"])
-                    run.violation(sig, what, {"case": case, "variant": i % 4, "modes": list(modes_for(i, case, tier)), "config": name})
+                    run.violation(sig, what, {"case": case, "variant": case_hash(case) % 4, "modes": list(modes_for(case_hash(case), case, tier))})
     finally:
         pool.terminate()
     if fatal:
